@@ -9,6 +9,7 @@ import (
 
 	"github.com/spf13/viper"
 	"golang.org/x/tools/go/ssa"
+	"gopkg.in/yaml.v3"
 )
 
 // The real spf13/viper (and through it the real YAML decoder), linked into the engine and used
@@ -85,6 +86,18 @@ func (x *Exec) viperStub(fn *ssa.Function, args []Val) (Val, bool) {
 		}
 		x.viperOf(args[0]).Set(key, nv)
 		return nil, true
+	case "gopkg.in/yaml.v3.Marshal":
+		// the real YAML encoder, natively, on a concrete value (nested string-keyed maps, lists, scalars)
+		nv, ok := x.toNative(args[0])
+		if !ok {
+			panic(unsupported{"yaml.Marshal of a value that is not concrete scalars / maps / lists"})
+		}
+		out, err := yaml.Marshal(nv)
+		if err != nil {
+			return TupleV{SliceV{}, x.opaqueErr()}, true
+		}
+		x.stubsUsed["yaml.Marshal (the real gopkg.in/yaml.v3, natively, on concrete values)"] = true
+		return TupleV{x.convert(cstr(string(out)), types.Typ[types.String], types.NewSlice(types.Typ[types.Byte])), IfaceV{}}, true
 	case "os.Setenv":
 		// environment stub: the harness's environment variables are set in the engine's own process
 		// (harnesses only ever set fixed names to fixed values), where the native viper reads them
